@@ -85,7 +85,9 @@ fn enc_case(ctx: &mut Ctx, ke: &BigUint, id: &[u8], msg: &[u8], r: Option<&BigUi
             }
         }
         None => {
+            // GM/T 0044.4 A6: K1 all zero -> back to A2. The library must not have produced a ciphertext from this r
             ctx.class("ref_retry_condition");
+            ctx.violation(&format!("encrypt:{}:all-zero-K1-not-retried", cls), json!({"case": wit(ke, id, msg, Some(&used)), "ct": hx(&ct)}));
             return;
         }
     }
@@ -280,7 +282,7 @@ pub fn run(ctx: &mut Ctx) {
     for (n, ok) in r9::selftest(false) {
         ctx.selftest(&n, ok);
     }
-    ctx.require(&["annex_kat", "len_sweep", "fixed_r_exact", "free_r", "roundtrip", "ref_made_decrypts", "bitflip_pc_byte", "bitflip_c1", "bitflip_c2", "bitflip_c3", "truncated_inside_c1", "truncated_inside_c3", "truncated_body", "id_changed", "c1_zero_zero", "c1_offcurve_y_plus_1", "c1_offcurve_random", "pc_byte_illegal_valid_tag", "c1_other_point", "c1_coordinate_plus_p_alias", "c3_zeroed", "msg_len=255", "msg_len=1", "id_empty", "encryptor_has_public_key_only", "interleaved_keys_decrypt"]);
+    ctx.require(&["annex_kat", "len_sweep", "fixed_r_exact", "free_r", "roundtrip", "ref_made_decrypts", "bitflip_pc_byte", "bitflip_c1", "bitflip_c2", "bitflip_c3", "truncated_inside_c1", "truncated_inside_c3", "truncated_body", "id_changed", "c1_zero_zero", "c1_offcurve_y_plus_1", "c1_offcurve_random", "pc_byte_illegal_valid_tag", "c1_other_point", "c1_coordinate_plus_p_alias", "c3_zeroed", "msg_len=255", "msg_len=1", "id_empty", "encryptor_has_public_key_only", "interleaved_keys_decrypt", "k1_all_zero_retry"]);
     let pr = r9::params();
     if ctx.shard == 0 {
         let ke = r9::hexn("0001EDEE3778F441F8DEA3D9FA0ACC4E07EE36C93F9A08618AF4AD85CEDE1C22");
@@ -291,6 +293,57 @@ pub fn run(ctx: &mut Ctx) {
             expect_decrypt(ctx, &key, &ke, b"Bob", &ct, b"Chinese IBE standard", "annex_ciphertext_decrypts");
         }
         ctx.sample(json!({"annex": {"ke": "0001EDEE..1C22", "id": "Bob", "msg": "Chinese IBE standard", "r": "0000AAC0..785C", "C3": "BA672387..F367"}}));
+    }
+    // --- crafted r for which K1 of a 1-byte message is all zero: the standard's retry condition (A6)
+    let kz = crate::corpus::load("sm9_k1_zero.json");
+    for (i, v) in kz["k1_zero"].as_array().unwrap().iter().enumerate() {
+        let ke = r9::from_b(&crate::corpus::hexf(v, "ke"));
+        let id = crate::corpus::hexf(v, "id");
+        let r = r9::from_b(&crate::corpus::hexf(v, "r"));
+        ctx.selftest(&format!("K1-all-zero witness {} reproduces in the reference", i), r9::encrypt(&ke, &id, &[0x5a], &r).is_none());
+        if !ctx.mine(i as u64) {
+            continue;
+        }
+        ctx.class("k1_all_zero_retry");
+        ctx.eval();
+        let mk = enc_master(&ke);
+        let good = rand_scalar(&mut ctx.prng(&format!("k1z{}", i)), &(&pr.n - 1u32));
+        rng_prepare(&[&r, &good]);
+        let o = guard(|| mk.encrypt(&id, &[0x5a]));
+        let seen = rng_seen();
+        match o {
+            Outcome::Ret(ct) => {
+                // the crafted r must have been drawn and abandoned; the ciphertext must be the standard one for the next draw
+                let used = seen.accepted.last().cloned();
+                let expect = used.as_ref().and_then(|u| r9::encrypt(&ke, &id, &[0x5a], u));
+                if seen.accepted.first() != Some(&r) || used.as_ref() == Some(&r) || expect.as_deref() != Some(&ct[..]) {
+                    ctx.violation("encrypt:k1-all-zero:not-retried", json!({"case": wit(&ke, &id, &[0x5a], Some(&r)), "ct": hx(&ct), "note": "C2 equals the plaintext byte"}));
+                }
+            }
+            o => ctx.violation(&format!("encrypt:k1-all-zero:{}", o.class()), wit(&ke, &id, &[0x5a], Some(&r))),
+        }
+        // the decryptor must refuse such a ciphertext as well (B3): build it with the library-independent formulae
+        let ppube = r9::g1_mul(&ke, &r9::g1_gen()).unwrap();
+        let qb = r9::g1_add(&r9::g1_mul(&r9::h1(&id, r9::HID_ENC), &r9::g1_gen()), &Some(ppube.clone()));
+        let c1 = r9::g1_mul(&r, &qb).unwrap();
+        let w = r9::f12pow(&r9::pairing(&ppube, &pr.p2).unwrap(), &r);
+        let mut z = r9::pt_bytes(&c1);
+        z.extend_from_slice(&r9::f12bytes(&w));
+        z.extend_from_slice(&id);
+        let k = r3::kdf(&z, 33);
+        let c2 = vec![0x5au8 ^ k[0]];
+        let c3 = r9::mac(&k[1..], &c2);
+        let mut ct = vec![4u8];
+        ct.extend_from_slice(&r9::pt_bytes(&c1));
+        ct.extend_from_slice(&c3);
+        ct.extend_from_slice(&c2);
+        if let Some(key) = enc_key_from_ref(&ke, &id, r9::HID_ENC) {
+            ctx.eval();
+            match guard(|| key.decrypt(&id, &ct)) {
+                Outcome::Ret(Err(_)) => {}
+                o => ctx.violation(&format!("decrypt:k1-all-zero:{}", oc(&o)), json!({"ct": hx(&ct)})),
+            }
+        }
     }
     // --- every message length 1..=255
     let reps = ctx.n(1, 20);
@@ -396,4 +449,29 @@ pub fn run(ctx: &mut Ctx) {
     }
     ctx.exhaustive("every single-bit flip and truncation of each tamper sample", true);
     let _ = Zero::is_zero(&BigUint::zero());
+}
+
+/// One-time search (never run by a check): r values for which K1 of a 1-byte (and 2-byte) message is all zero.
+pub fn tool_k1_zero_search() {
+    let pr = r9::params();
+    let ke = r9::hexn("0001EDEE3778F441F8DEA3D9FA0ACC4E07EE36C93F9A08618AF4AD85CEDE1C22");
+    let id = b"Bob";
+    let ppube = r9::g1_mul(&ke, &r9::g1_gen()).unwrap();
+    let qb = r9::g1_add(&r9::g1_mul(&r9::h1(id, r9::HID_ENC), &r9::g1_gen()), &Some(ppube.clone()));
+    let g = r9::pairing(&ppube, &pr.p2).unwrap();
+    let mut out = vec![];
+    let mut r = BigUint::from(1000u32);
+    while out.len() < 3 {
+        r += 1u32;
+        let c1 = r9::g1_mul(&r, &qb).unwrap();
+        let w = r9::f12pow(&g, &r);
+        let mut z = r9::pt_bytes(&c1);
+        z.extend_from_slice(&r9::f12bytes(&w));
+        z.extend_from_slice(id);
+        let k = r3::kdf(&z, 33);
+        if k[0] == 0 {
+            out.push(json!({"ke": hex::encode(r9::b32(&ke)), "id": hex::encode(id), "r": hex::encode(r9::b32(&r)), "mlen": 1}));
+        }
+    }
+    println!("{}", serde_json::to_string_pretty(&json!({"k1_zero": out})).unwrap());
 }
